@@ -151,7 +151,10 @@ def job_dump(job, P, ADE):
             os.pwrite(prog, b"%12d" % idx, 0)
         base = BASES[st["bi"]]
         delta = bytes(st["delta"])
-        if iso:
+        dst = st["dst"]
+        # a declared size of 2^24 or more (4+ limbs with a high one set) is decoded in a forked grandchild
+        risky = len(dst) > 4 or (len(dst) == 4 and dst[3] >= 8)
+        if iso or risky:
             obs = isolated(lambda: decode_obs(P, ADE, base, delta))
             out = bytes.fromhex(obs["hex"]) if obs.get("k") == "bytes" and "hex" in obs else None
         else:
